@@ -386,7 +386,7 @@ def check_case(ctx: runner.Ctx, case):  # noqa: C901, PLR0912, PLR0915
 
 
 def explore(ctx: runner.Ctx):
-    ctx.given(st_case(), lambda c: check_case(ctx, c), ctx.budget(6000, 200000))
+    ctx.given(st_case(), lambda c: check_case(ctx, c), ctx.budget(14000, 300000))
 
 
 RULE = ("cases = (generator: model loader / model dumper / get_converter / impl_converter, model kind, 1-5 fields with ids from "
